@@ -77,6 +77,14 @@ Theorem above_deserved_in_every_dimension_refuted :
 Proof. exact CapLemmas.above_deserved_in_every_dimension_refuted. Qed.
 Print Assumptions above_deserved_in_every_dimension_refuted.
 
+(* drf (preempt only): a returned victim passed the share test - the preemptor job's dominant share with the preemptor
+   is below, or within shareDelta of, the dominant share of what is LEFT of the victim's job after every candidate
+   of that job looked at so far, the victim included (the vote is cumulative over a job's candidates) *)
+Theorem drf_vote_cumulative : forall eps s ls l al c left, (c, left) ∈ drf_go_tr eps s ls al l ->
+  c ∈ l /\ drf_lets_go ls (dom_share eps left (total_res s)) = true.
+Proof. exact drf_go_tr_spec. Qed.
+Print Assumptions drf_vote_cumulative.
+
 Theorem victims_subset_candidates : forall (eps : Z) (E : env) (k : akind) (s : sess) (p : task) (l : list task) (c : task),
   c ∈ victims eps E k s p l -> c ∈ l.
 Proof. exact victims_subset. Qed.
@@ -177,6 +185,7 @@ Theorem eviction_eligible : forall (eps : Z) (E : env) (cs : list choice) (s s' 
             (t_job c = t_job (a_task r) /\ t_prio c < t_prio (a_task r))
         | KProp => is_reclaim (a_kind r) = true -> c ∈ prop_vote eps E' (a_pre r) (a_cands r)
         | KCap => is_reclaim (a_kind r) = true -> c ∈ cap_vote eps E' (a_pre r) (a_task r) (a_cands r)
+        | KDrf => is_reclaim (a_kind r) = false -> c ∈ drf_vote eps (a_pre r) (a_task r) (a_cands r)
         end.
 Proof. exact Eligible.eviction_eligible. Qed.
 Print Assumptions eviction_eligible.
